@@ -398,31 +398,38 @@ def run(ctx: Ctx, rep: Report) -> None:
 
 
 def check_community_model(ctx: Ctx, rep: Report, cls: ClassInfo, want_version: int, rule: str = "C07-R4") -> None:
-    proc = cls.methods.get("process_incoming_message")
-    gen = cls.methods.get("generate_request_message")
-    if proc is None or gen is None:
+    proc = ctx.r.method(cls, "process_incoming_message")
+    gen = ctx.r.method(cls, "generate_request_message")
+    if not ({"process_incoming_message", "generate_request_message"} <= set(cls.methods)) and [c for c in ctx.r.subclasses(cls) if not c.module.external]:
+        return  # a base class shared by the community models: decided through each concrete subclass
+    if proc is None or gen is None or proc.module.external or gen.module.external or proc.cls is ctx.u.cls("puresnmp.plugins.security:SecurityModel"):
         rep.undecided(rule, f"{cls.module.path} ({cls.name})", "community model implements both directions", "method missing")
         return
+    proc = ctx.inlined(proc)  # the checks may live in a helper shared by the community models (self._accept(message, community))
     defs = ctx.defs(proc)
     # fields of the incoming message: tuple-unpack or subscripts of the message parameter
     msg_param = proc.params[1]
     cred_param = proc.params[2]
     field_of: Dict[str, int] = {}
+    def is_msg(e: ast.AST) -> bool:
+        e = defs.expand(e) if isinstance(e, ast.Name) else e  # a parameter slot of a spliced helper (_i1_message = message)
+        return isinstance(e, ast.Name) and e.id == msg_param
+
     for name, entries in defs.unpack.items():
         for value, idx, _ in entries:
-            if isinstance(value, ast.Name) and value.id == msg_param:
+            if is_msg(value):
                 field_of[name] = idx
     for name, vals in defs.assigns.items():
         for value, _ in vals:
             v = strip_casts(value)
-            if isinstance(v, ast.Subscript) and isinstance(v.value, ast.Name) and v.value.id == msg_param and isinstance(v.slice, ast.Constant):
+            if isinstance(v, ast.Subscript) and is_msg(v.value) and isinstance(v.slice, ast.Constant):
                 field_of[name] = v.slice.value
 
     def field_index(expr: ast.AST) -> Optional[int]:
         for n in ast.walk(expr):
             if isinstance(n, ast.Name) and n.id in field_of:
                 return field_of[n.id]
-            if isinstance(n, ast.Subscript) and isinstance(n.value, ast.Name) and n.value.id == msg_param and isinstance(n.slice, ast.Constant):
+            if isinstance(n, ast.Subscript) and is_msg(n.value) and isinstance(n.slice, ast.Constant):
                 return n.slice.value
         return None
 
